@@ -128,10 +128,13 @@ def ascii_swap(s):
 
 
 def _unre(p):
-    """inverse of re.escape on '^' + re.escape(value) + '$'"""
-    if not (p.startswith('^') and p.endswith('$')):
+    """inverse of re.escape on '^' + re.escape(value) + END, END being the end-of-value anchor the library uses ('\\Z' since F01d, '$' before)"""
+    if p.startswith('^') and p.endswith('\\Z'):
+        body = p[1:-2]
+    elif p.startswith('^') and p.endswith('$'):
+        body = p[1:-1]
+    else:
         return None
-    body = p[1:-1]
     out = []
     i = 0
     while i < len(body):
